@@ -515,7 +515,10 @@ def run(chk, tier):
             ("Debug", "struct Node<T> { id: u32, parent: *const Node<T>, marker: ::core::marker::PhantomData<Node<T>>, #[debug(skip)] value: Option<T> }", "Node<NoFmt>", ""),
             ("Debug", "enum Tree<T> { Leaf(T), Node(Vec<(T, Self)>) }", "Tree<i32>", ""),
             ("Debug", "struct Scene<'a, T> { shape: &'a dyn Shape<T> }", "Scene<'static, i32>", "pub trait Shape<T>: ::core::fmt::Debug {}"),
-            ("Debug", "enum Scene<'a, T> { One(&'a mut (dyn Shape<T> + Send)), Two { a: &'a dyn Shape<T>, b: T } }", "Scene<'static, i32>", "pub trait Shape<T>: ::core::fmt::Debug {}")):
+            ("Debug", "enum Scene<'a, T> { One(&'a mut (dyn Shape<T> + Send)), Two { a: &'a dyn Shape<T>, b: T } }", "Scene<'static, i32>", "pub trait Shape<T>: ::core::fmt::Debug {}"),
+            # ... the trait object written by a macro in type position (second reading of 0e646ea)
+            ("Debug", "struct Scene<'a, T>(&'a Obj!(T));", "Scene<'static, i32>", "pub trait Shape<T>: ::core::fmt::Debug {}\nmacro_rules! Obj { ($t:ty) => { dyn Shape<$t> } }"),
+            ("Display", "#[display(\"{_0}\")] struct Scene<'a, T>(&'a mut Obj!(T));", "Scene<'static, i32>", "pub trait Shape<T>: ::core::fmt::Display {}\nmacro_rules! Obj { ($t:ty) => { dyn Shape<$t> + Send } }")):
         fn = "assert_impl" if derive == "Display" else "assert_impl_debug"
         name = ty.split("<")[0]
         mod = "use super::*;\n%s\n#[derive(derive_more::%s)]\n%s\npub fn run(r: &mut R) { %s::<%s>(); r.check(\"impl available\", true); }" % (extra, derive, item, fn, ty)
@@ -530,8 +533,13 @@ def run(chk, tier):
             ("Debug", 'struct S<T, U> { v: T, #[debug(skip)] st: U, next: Option<Box<S<T, u8>>> }', "S<i32, NoFmt>"),
             ("Debug", 'enum S<T, U, V> { Leaf(T), Node(Vec<S<T, u8, V>>), #[debug("k")] K(U), #[debug("{_0:?}")] L(V) }', "S<i32, NoFmt, i32>"),
             ("Debug", 'struct S<T> { v: T, next: Option<Box<S<T>>> }', "S<i32>"),
+            # ... the deriving type spelled with a path from a path keyword (second reading of 4ff4ffb)
+            ("Debug", 'struct S<T>(T, Option<Box<self::S<T>>>);', "S<i32>"),
+            ("Debug", 'struct S<T, U> { v: T, #[debug(skip)] st: U, next: Option<Box<super::CUR::S<T, u8>>> }', "S<i32, NoFmt>"),
+            ("Display", 'enum S<T> { #[display("{_0}")] Lit(T), #[display("-{_0}")] Neg(Box<self::S<T>>), #[display("({_0} + {_1})")] Add(Box<crate::CUR::S<T>>, Box<S<T>>) }', "S<i32>"),
             ("Debug", 'enum S<T> { Leaf(T), #[debug("node{_0:?}")] Node(Vec<S<T>>) }', "S<i32>")):
         fn = "assert_impl" if derive == "Display" else "assert_impl_debug"
+        item = item.replace("CUR", "c%d" % len(cases))      # the module the engine puts this case in
         mod = "use super::*;\n#[derive(derive_more::%s)]\n%s\npub fn run(r: &mut R) { %s::<%s>(); r.check(\"impl available\", true); }" % (derive, item, fn, ty)
         cases.append(Case("c%d" % len(cases), mod, meta={"src": "#[derive(%s)] %s" % (derive, item), "inst": ty}))
     eng = CompileEngine("C04", prelude=PRELUDE, per_bin=max(8, len(cases) // 16 + 1))
